@@ -7,7 +7,7 @@ from mirq.paths import Paths, Unsupported, show_fact, show_eff
 from mirq.origin import show
 p = Program(os.environ.get("CFG", "default"))
 inl = (lambda g: True) if os.environ.get("ALL") else None
-P = Paths(p, inline=inl)
+P = Paths(p, inline=inl, loops="once" if os.environ.get("ONCE") else "refuse")
 for f in p.fns.values():
     if f.body and all(x in f.id or x in f.path for x in sys.argv[1:]):
         print("==", f.path, f.span)
@@ -16,6 +16,6 @@ for f in p.fns.values():
                 print("  if  ", "; ".join(show_fact(x) for x in s.facts))
                 for e in s.effects:
                     print("    do", show_eff(e))
-                print("    =>", show(s.ret, maxd=8))
+                print("    =>", show(s.ret, maxd=8) if s.ret is not None else "(next iteration)")
         except Unsupported as e:
             print("  unsupported:", e)
